@@ -28,6 +28,7 @@ type DischargeOpts struct {
 	Jobs     int
 	All      bool // run all solvers to completion
 	MaxGroup int
+	KeepScripts bool
 	Diagnose bool // on failure, locate the failing conjuncts and look for a candidate model
 }
 
@@ -80,7 +81,7 @@ func Discharge(obligs []*Oblig, opt DischargeOpts) []Result {
 		}
 		mu.Lock()
 		res[i].Status, res[i].By, res[i].Secs = v.Status, v.By, v.Secs
-		if v.Status != "unsat" {
+		if v.Status != "unsat" || opt.KeepScripts {
 			res[i].Script = script
 			for _, r := range v.Results {
 				res[i].Output += "== " + r.Solver + ": " + r.Answer + "\n" + r.Output + "\n"
